@@ -1,7 +1,7 @@
 (* C07 - the stop callback fires exactly once per established session, never otherwise, and its argument is true iff a graceful
    disconnect had been initiated before the connection closed. *)
 From Coq Require Import NArith ZArith List Bool.
-From Verif Require Import Model.Conn Proofs.ConnCore Proofs.ConnRun Proofs.ConnQuiet Proofs.ConnReason Proofs.ConnReasonRun.
+From Verif Require Import Model.Conn Proofs.ConnCore Proofs.ConnRun Proofs.ConnQuiet Proofs.ConnReason Proofs.ConnReasonRun Proofs.Product Proofs.ConnPair.
 Import ListNotations.
 
 (* stop_calls is the history of on_stop invocations (appended in _cleanup together with the OStop observation).
@@ -98,3 +98,36 @@ Example C07_disconnect_request_applies :
   end.
 Proof. vm_compute. repeat split; discriminate. Qed.
 (* and a call with false exists: see C07_reset above (no initiating label in that run before the reset) *)
+
+(* ---------------------------------------------------------------- several sessions in one process *)
+(* The model of a process with two connections is the interleaving product of two connection machines (Proofs/Product.v,
+   Proofs/ConnPair.v: the model has no state outside the connection). In every run of the pair each connection is in the state,
+   and has made the observations, of its own run on its own labels - so every theorem above holds for each session of a
+   process - and neither can disable a step of the other. That the CODE has no state outside the connection either is what
+   the siblings probe of checks/c07.py tests. *)
+Theorem C07_sibling_sessions_independent : forall ls a b a' b' os,
+  pair_run (a, b) ls = Some ((a', b'), os) ->
+  run a (mine ls) = Some (a', my_obs os) /\ run b (theirs ls) = Some (b', their_obs os).
+Proof. exact pair_projects. Qed.
+
+Theorem C07_sibling_never_blocks : forall ls a b a' b' oa ob,
+  run a (mine ls) = Some (a', oa) -> run b (theirs ls) = Some (b', ob) ->
+  exists os, pair_run (a, b) ls = Some ((a', b'), os) /\ my_obs os = oa /\ their_obs os = ob.
+Proof. exact pair_enabled. Qed.
+
+(* the reason reported by a connection's stop callback is about THAT connection: true only if a force_disconnect / disconnect
+   call on it, or a DisconnectRequest in its own stream, is among ITS labels - whatever its sibling did or received *)
+Theorem C07_sibling_true_only_if_initiated_here : forall n e ka scr n2 e2 ka2 scr2 ls a b os,
+  pair_run (init n e ka scr, init n2 e2 ka2 scr2) ls = Some ((a, b), os) ->
+  In true (stop_calls a) -> exists l, In l (mine ls) /\ initiates l.
+Proof. exact sibling_true_only_if_initiated_here. Qed.
+
+(* non-vacuity: two connections established step by step in turns; the device of the first sends a DisconnectRequest, the
+   second is reset afterwards: the first reports an expected stop, the second an unexpected one *)
+Example C07_siblings :
+  option_map (fun r => (stop_calls (fst (fst r)), stop_calls (snd (fst r))))
+    (pair_run (init false false 20480 [], init false false 20480 [])
+       (interleave connect connect ++ [PA label label (LData [DFrame discreq]); PA label label LConnLostCb;
+                                       PB label label (LLost (Some (Raw RReset))); PB label label LConnLostCb]))
+  = Some ([true], [false]).
+Proof. vm_compute. reflexivity. Qed.
